@@ -314,3 +314,63 @@ package jp
 //@     let r0 = right
 //@     assume 0 <= i && i < len(sstack)
 //@     assert [C12 not] isbool(sstack[i]) && anybool(sstack[i]) == !Truthy(left)
+
+// ---------------------------------------------------------------------------
+// Path mutations touch exactly the selected locations (C13), fragment level: removing an index fragment from a plain
+// array (and from a gen.Array) yields the same kind of array without exactly the element the index denotes
+// (spec.NormIndex, the denotation Get uses): the elements before it keep their positions, the elements after it move
+// down by one, nothing else is dropped or duplicated; an index that denotes no element changes nothing.
+
+//@ unit jpremove
+
+//@ func (Nth).remove
+//@   opt forkappend = true
+//@   region rmAny = case []any
+//@     let n = len(tv)
+//@     let i0 = i
+//@     let k = spec.NormIndex(i, len(tv))
+//@     let T0 = snap(tv)
+//@     let out0 = out
+//@     let c0 = changed
+//@     assert [C13 nth-none] k < 0 ==> changed == c0 && out === out0
+//@     assert [C13 nth-remove] k >= 0 ==> changed && len(anyslice(out, tv)) == n - 1
+//@     assert [C13 nth-remove] k >= 0 ==> (forall j: 0 <= j && j < k ==> anyslice(out, tv)[j] == T0[j])
+//@     assert [C13 nth-remove] k >= 0 ==> (forall j: k <= j && j < n - 1 ==> anyslice(out, tv)[j] == T0[j+1])
+// The same for a gen.Array.
+//@   region rmGen = case gen.Array
+//@     let n = len(tv)
+//@     let i0 = i
+//@     let k = spec.NormIndex(i, len(tv))
+//@     let T0 = snap(tv)
+//@     let out0 = out
+//@     let c0 = changed
+//@     assert [C13 nth-none] k < 0 ==> changed == c0 && out === out0
+//@     assert [C13 nth-remove] k >= 0 ==> changed && len(anyslice(out, tv)) == n - 1
+//@     assert [C13 nth-remove] k >= 0 ==> (forall j: 0 <= j && j < k ==> anyslice(out, tv)[j] == T0[j])
+//@     assert [C13 nth-remove] k >= 0 ==> (forall j: k <= j && j < n - 1 ==> anyslice(out, tv)[j] == T0[j+1])
+
+// Removing a slice fragment from a plain array: a slice that selects nothing (Get's denotation: lo = SliceLo(start),
+// hi = SliceHi(end) exclusive, hi <= lo for a positive step) removes nothing.
+//@ func inStep
+//@   requires step != 0 && step > -2305843009213693952
+//@   requires -2305843009213693952 <= i && i <= 2305843009213693952 && -2305843009213693952 <= start && start <= 2305843009213693952 && -2305843009213693952 <= end && end <= 2305843009213693952
+//@   ensures [C13 instep] 0 < step ==> result == (start <= i && i <= end && (i - start) % step == 0)
+
+//@ func (Slice).remove
+//@   opt forkappend = true
+//@   region rmAny = case []any
+//@     let n = len(tv)
+//@     let start0 = start
+//@     let end0 = end
+//@     let step0 = step
+//@     let lo = spec.SliceLo(start, len(tv))
+//@     let hi = spec.SliceHi(end, len(tv))
+//@     let c0 = changed
+//@     assume -1099511627776 <= step && step <= 1099511627776
+//@     assert [C13 slice-none] 0 < step0 && hi <= lo ==> changed == c0
+//@     loop 0
+//@       invariant [C13 slice-none] 0 < step0 && hi <= lo ==> changed == c0
+//@     loop 1
+//@       invariant [C06 bounds] -1 <= i && i < len(tv)
+//@     loop 2
+//@       invariant [C06 bounds] -1 <= i && 2 * (i + 1) <= len(ns)
